@@ -153,6 +153,9 @@ def templates(tier="quick"):
     v = Variant("v0", [Stmt("lib", ex=["a.o", "b.o"], rsp=("lib.rsp", "a.o b.o")), Stmt("exe", ex=["lib"])])
     v1 = Variant("v1", [Stmt("lib", ex=["a.o", "b.o"], rsp=("lib.rsp", "a.o b.o --extra")), Stmt("exe", ex=["lib"])])
     T += _mk("rspfile", [v, v1], tags=["rspfile"], depth=d)
+    # ... `-d keepdepfile` is about depfiles: the response file of a command that succeeded goes all the same
+    T[-1]["ops"].append(ninja_op(j=2, flags=["-d", "keepdepfile"], label="ninja -j2 -d keepdepfile"))
+    T[-2]["ops"].append(ninja_op(j=2, flags=["-d", "keepdepfile"], label="ninja -j2 -d keepdepfile"))
     # ... and an interrupt while the command that reads the response file runs: it has not succeeded, the file stays
     T[-1]["ops"].append(ninja_op(j=2, interrupt=True))
     T[-2]["ops"].append(ninja_op(j=2, interrupt=True))
@@ -315,6 +318,17 @@ def templates(tier="quick"):
     T += _mk("dyndep_after_implicit_stamp", [v], tags=["dyndep"], depth=min(d, 3), js=(3,), files={"dd.in": dd},
              max_fault_stmts=1, edits_during=False, touch_only=("dd.in",))
 
+    # T22c one statement makes a stamp (first output) and the dyndep file (second output); the bound statement waits for both
+    v = Variant("v0", [Stmt(["stamp", "dd"], ex=["u", "dd.in"], copy=True), Stmt("x", ex=["s"]),
+                       Stmt("out", ex=["in"], oo=["stamp", "dd"], dyndep="dd", extra_reads=["x"]), Stmt("top", ex=["out"])])
+    T += _mk("dyndep_file_is_a_second_output", [v], tags=["dyndep"], depth=min(d, 3), js=(1, 3), files={"dd.in": dd},
+             max_fault_stmts=1, edits_during=False, touch_only=("dd.in",))
+
+    # T20b an up-to-date statement in the middle whose order-only inputs are being rebuilt (one of them fails) and a dirty
+    # statement behind it: what is behind a failure does not start, however the path to it runs
+    v = Variant("v0", [Stmt("a", ex=["s"]), Stmt("b", ex=["s"]), Stmt("mid", ex=["m"], oo=["a", "b"]), Stmt("top", ex=["mid", "u"])])
+    T += _mk("failure_behind_an_up_to_date_statement", [v], tags=["order-only"], depth=d, js=(1, 2), ks=(1, 0), pair_faults=True)
+
     # T21b output directories that are siblings with a common name prefix (out/generated, out/gen, out/g), longest first
     v = Variant("v0", [Stmt("o/generated/a", ex=["s"]), Stmt("o/gen/b", ex=["o/generated/a"]), Stmt("o/g/c", ex=["o/gen/b"]),
                        Stmt("o/generated2/d", ex=["o/g/c"], depfile=True, hidden=["h"])])
@@ -455,6 +469,12 @@ def templates(tier="quick"):
                                   Stmt("obj2", ex=["src2"], hidden=["h3"], deps=kind), Stmt("exe", ex=["obj", "obj2"])])
         T += _mk("restat_deps_%s_list_second_half_changes" % kind, [rv2("v0", ["h1", "h2"]), rv2("v1", ["h1", "h3"])], tags=["restat", "deps"],
                  depth=d, touch=True, js=(1, 2), max_fault_stmts=1, edits_during=False, with_rm=False)
+
+        # ... a first build in a tree that already holds the right object (unpacked from an archive, logs deleted): the restat
+        # command leaves it untouched and its dependencies are recorded all the same
+        T.append(scenario("restat_deps_%s_output_already_right/fresh" % kind, "template", [rv("v0", ["h1"])], files={"obj": "src-v0\n"},
+                          ops=standard_ops([rv("v0", ["h1"])], {}, js=(1, 2), ks=(1,), edits_during=False, max_fault_stmts=1, touch=True),
+                          init=[], depth=2, tags=["restat", "deps", "fresh"]))
 
     # T35 `restat` supplied by a dyndep file that is re-made in the build: before the file is loaded the statement is
     # judged as an ordinary one (output older than its input: dirty, wanted), afterwards as a restat statement (the log
